@@ -41,6 +41,8 @@ def verify_contract(c, prefix='', timeout_s=10, both=False, source_override=None
     """source_override: (FunctionDef, class_name) for self-tests on mutated text"""
     rep = FunctionReport(c.key)
     t0 = time.time()
+    from . import sorts
+    sorts._fresh[0] = 0          # symbol names do not depend on what this process verified before (solver heuristics are name-sensitive)
     try:
         if source_override is not None:
             fn, cls = source_override
